@@ -41,7 +41,8 @@ class C17(L1Prop):
             vsrc = r.choice(["default", f"flag:{vk}", f"env:{vk}", f"both:{vk}/{vk + 7}"])
             dk = r.choice([1, 2, 3])
             ysrc = r.choice(["default", "default", f"flag:{dk}", f"env:{dk}"])
-            boot = f"boot listen={lsrc}:{nl}{'h' if same_port else ''} dir={dsrc} allow={allow} versions={vsrc} days={ysrc}"
+            v6 = (not same_port) and k % 5 == 4
+            boot = f"boot listen={lsrc}:{nl}{'h' if same_port else ('6' if v6 else '')} log={['error', 'debug', 'trace'][k % 3]} dir={dsrc} allow={allow} versions={vsrc} days={ysrc}"
             ops = [boot]
             # every third configuration: another connection to the database stays open throughout (a
             # backup tool, a second worker), so that nothing is checkpointed when requests finish and
